@@ -579,13 +579,25 @@ def _rules_core(repo, tier):
                        (OPT, 'RobustModel.normalize_RWJ'), (OPT, 'RobustModel.flatten_row_jacobian')])]
 
 
+VIEW_SITES = {
+    ('pypose.optim.corrector:Triggs.forward', 'v0.view(v1.shape + (v0.shape[-1],))'):
+        'splits the leading axis of the 2-D Jacobian into the residual shape, last axis kept: a pure split is valid for every stride pattern',
+}
+
+
+def rule_view07(repo):
+    from ..axisdefault import rule_viewarg
+    return rule_viewarg(repo, 'C07.VIEW', ['pypose.optim.optimizer', 'pypose.optim.functional', 'pypose.optim.corrector', 'pypose.optim.solver', 'pypose.optim.strategy'],
+                        floor=5, exempt_sites=VIEW_SITES)
+
+
 def rules(repo, tier):
     from ..memo import rule_memo
     from ..optional import rule_optional
     from ..mode import mode_rules
     from ..callsig import rule_callsig
     from ..docsig import rule_docsig
-    return list(_rules_core(repo, tier)) + [rule_memo(repo, 'C07.MEMO', 'history independence: nothing computed from the contents of a tensor argument is kept '
+    return list(_rules_core(repo, tier)) + [rule_view07(repo), rule_memo(repo, 'C07.MEMO', 'history independence: nothing computed from the contents of a tensor argument is kept '
                                                       'under the identity, address or version of that tensor, in module-level storage, or published from a generator '
                                                       'before it is complete - a later call with the same object and other contents must not be answered from it',
                                                       ['pypose.optim.optimizer', 'pypose.optim.solver', 'pypose.optim.corrector', 'pypose.optim.functional'], floor=3),
